@@ -12,3 +12,9 @@ Theorem C24_functional : forall (img img' : image) ser aud n,
   (do cs <- sys_new img ser aud; sys_cycles n cs) = (do cs <- sys_new img' ser aud; sys_cycles n cs).
 Proof. exact run_functional. Qed.
 Print Assumptions C24_functional.
+
+(* the function is defined (and runs) on a concrete image: an MBC3 cartridge header on a 32 KiB image of NOPs *)
+Example C24_example :
+  let img := mkImage 32768 (fun a => if a =? 327 then 19 else if a =? 329 then 3 else 0) in
+  is_ok (do cs <- sys_new img true false; sys_cycles 300 cs) = true.
+Proof. vm_compute. reflexivity. Qed.
